@@ -196,6 +196,23 @@ def gen_parent_spec(rng, nfr, force_mixed=False):
     spec = {"symbols": symbols, "geometry": geom, "real": real}
     if any_iso:
         spec["mass_numbers"] = mass_numbers
+    if rng.random() < 0.35:
+        # caller-supplied masses: exact table values, values NEAR a tabulated nuclide (inside the 1e-3 u window, so the
+        # validation assigns that mass number while the mass itself is not the table's), and free-form masses that match
+        # no nuclide (A = -1).  The sub-molecule must carry the parent's masses, not masses re-derived from (symbol, A).
+        import qcelemental as qcel
+
+        masses = []
+        for s_, iso_ in zip(symbols, mass_numbers):
+            base = float(qcel.periodictable.to_mass(s_ if iso_ == -1 else f"{s_}{iso_}"))
+            u = rng.random()
+            if u < 0.35:
+                masses.append(base)
+            elif u < 0.8 or iso_ != -1:
+                masses.append(base + rng.choice([-1, 1]) * rng.choice([2.0e-6, 1.7e-5, 1.3e-4, 4.0e-4, 8.0e-4]) * rng.uniform(0.5, 1.0))
+            else:
+                masses.append(base * (1.0 + rng.uniform(0.004, 0.02)))
+        spec["masses"] = masses
     style = rng.random()
     if nfr == 1 and style < 0.5:
         # no fragment data at all: exercises the default fragments / charges / multiplicities properties
